@@ -187,3 +187,18 @@ package writecache
 //@ func (*cache).flush$1
 //@   property C43 C17
 //@   ensures [every_listed_address_is_flushed_here] resultOf(err, "(*writecache.cache).flushSingle")
+
+// A batch flush drops the cached copy of exactly those addresses whose bytes it read and
+// handed to the main storage (objs): an address of the batch that could not be read just
+// then (deleted meanwhile, read error) was not flushed - a copy cached under it since then
+// must stay.
+// (objs is a local map of flushBatch: logging and the storage's Type() cannot reach it)
+//@ callrule c15_batch_collaborators in (*cache).flushBatch
+//@   property C15 C17
+//@   callee log.*, (writecache.stor).Type, (*zap.Logger).*, zap.*, errors.As, (*writecache.cache).reportFlushError
+//@   pureeffect
+//@ callrule c15_batch_drops_only_what_it_flushed in (*cache).flushBatch
+//@   property C15 C17
+//@   callee (*writecache.cache).delete
+//@   pureeffect
+//@   requires [address_was_read_and_handed_to_the_main_storage] has(objs, a0)
